@@ -16,6 +16,8 @@ FLAGS = ('pending_encryption_information', 'pending_central_identification')
 
 
 def run(chk, facts, tier):
+    chk.rule('reply-size-defined', 'distribute_keys and the l2cap_output functions of the security managers assign the in/out PDU size on every path: nothing is sent that was not written', floor=5)
+    reply_size_defined(chk, facts, 'reply-size-defined', lambda fn: fn.name == 'distribute_keys' or fn.name.endswith('l2cap_output'))
     chk.rule('send-only-encrypted', 'distribute_keys: every output write / non-zero out_size depends on connection.security_attributes().is_encrypted', floor=4)
     chk.rule('send-once', 'each item is sent on the true edge of its pending flag and that flag is cleared on the same path; out_size starts at 0', floor=3)
     chk.rule('flag-writers', 'pending flags are set true only in arm_key_distribution and cleared only in distribute_keys', floor=4)
